@@ -354,7 +354,7 @@ def main(tier, seed):
     try:
         translate()
         run.obligation("translate:core._not_termination+run_sampling+compute_posterior", True)
-    except TranslateError as e:
+    except Exception as e:  # fail closed: anything the translator cannot digest
         run.obligation("translate:core._not_termination+run_sampling+compute_posterior", False, str(e))
     run.prove("Props/C12.v", link_rels=["Link/Posterior.v"])
     try:
